@@ -685,6 +685,14 @@ def frontier_stuck_cases():
     return [Case(f"{PROP}/__main__._compute_frontier#stuck", "stuck / not stuck", harness, sources=("halmos.__main__:_compute_frontier",))]
 
 
+def unsupported_jump_ref():
+    """an unsupported feature that stops a path is flagged: a symbolic jump target without --symbolic-jump ends the path stuck (C02's unit)"""
+    from contracts import c02
+    from contracts.common import rewrap
+
+    return rewrap(PROP, c02.symbolic_jump_cases(), "unsupported-is-flagged")
+
+
 def frontier_body_cases():
     """the body of the target-call loop of _compute_frontier, in the order the code runs it (C15's unit): a stuck call is
     logged before any `ignore` exit"""
@@ -695,7 +703,7 @@ def frontier_body_cases():
 
 
 def build_cases(tier="quick"):
-    return frontier_body_cases() + logs_cases() + setup_cases() + jumpi_cases() + depth_cases() + except_arm_cases() + loop_bound_cases() + owner_cases() + engine_logs_frame_cases() + width_and_stuck_cases() + frontier_stuck_cases()
+    return unsupported_jump_ref() + frontier_body_cases() + logs_cases() + setup_cases() + jumpi_cases() + depth_cases() + except_arm_cases() + loop_bound_cases() + owner_cases() + engine_logs_frame_cases() + width_and_stuck_cases() + frontier_stuck_cases()
 
 
 ASSUMPTIONS = [
